@@ -54,7 +54,15 @@ def _if_sq(x):
     return x * x
 
 
+def _if_boom(x):
+    """raises for x == 3: a user callable that fails mid-walk (natural fault for C14)"""
+    if x == 3:
+        raise ValueError("if_boom(3)")
+    return x + 10
+
+
 IF_TABLE = {
+    "if_boom": (_if_boom, ["int", None, None], [["int", None, None]]),
     # name: (callable, return type recipe, [arg type recipes])
     "if_double": (_if_double, ["int", None, None], [["int", None, None]]),
     "if_succ": (_if_succ, ["int", None, None], [["int", None, None]]),
@@ -251,6 +259,8 @@ def _add_effect(ctx, target, eff, when=None):
     if kind == "assign":
         if when is None:
             target.add_effect(fl, val, cond, fa)
+        elif hasattr(target, "add_timed_effect"):
+            target.add_timed_effect(when, fl, val, cond, fa)
         else:
             target.add_effect(when, fl, val, cond, fa)
     elif kind == "inc":
